@@ -32,6 +32,10 @@ pub struct LockPlan {
     pub tasks: Vec<Vec<LOp>>,
     /// number of tasks racing `open` in the final phase
     pub final_racers: usize,
+    /// number of lock probes by an extra task during the main phase (0 = no prober): each probe
+    /// try-locks LOCK and releases it at once, which reveals the moments at which the lock is free
+    #[serde(default)]
+    pub probes: u32,
 }
 
 /// Delegating filesystem: every call is a scheduling point and is counted.
@@ -40,6 +44,8 @@ pub struct Traced {
     calls: Mutex<u64>,
     /// (seq, task) of every mutating call (create / rename / remove / write through a handle)
     mutations: Arc<Mutex<Vec<(u64, usize, &'static str)>>>,
+    /// (seq, task) of every successful lock acquisition
+    locks: Mutex<Vec<(u64, usize)>>,
 }
 
 /// Writable handle whose writes are scheduling points and are logged as mutations.
@@ -159,6 +165,9 @@ impl FileSystem for Traced {
     fn lock_file(&self, path: &Path) -> io::Result<FileLock> {
         self.enter();
         let r = self.inner.lock_file(path);
+        if r.is_ok() {
+            self.locks.lock().unwrap().push((rt::next_seq(), rt::current_task()));
+        }
         // the moment the lock is (not) granted is itself an interesting point
         rt::sched_point(rt::YieldKind::Fs);
         r
@@ -229,7 +238,11 @@ impl Ctx {
             let mut g = self.owners.lock().unwrap();
             g.open_calls.push((t0, t1));
             if matches!(r, Called::Ok(Ok(_))) {
-                g.open_now.insert(task, (existing_tasks, t1));
+                // ownership starts when the file lock was granted inside this open call (the
+                // recovery that follows already relies on being the only instance)
+                let me = rt::current_task();
+                let granted = self.fs.locks.lock().unwrap().iter().rev().find(|(s, t)| *t == me && *s > t0).map(|(s, _)| *s).unwrap_or(t1);
+                g.open_now.insert(task, (existing_tasks, granted));
             }
         }
         match r {
@@ -326,7 +339,7 @@ pub fn body(case: &Case, out: &Shared) {
     let tmp = TmpFileSystem::new(None);
     let root = tmp.get_root_path();
     let path = root.join("db");
-    let fs = Arc::new(Traced { inner: tmp, calls: Mutex::new(0), mutations: Arc::new(Mutex::new(vec![])) });
+    let fs = Arc::new(Traced { inner: tmp, calls: Mutex::new(0), mutations: Arc::new(Mutex::new(vec![])), locks: Mutex::new(vec![]) });
     let owners = Arc::new(Mutex::new(Owners::default()));
     let knobs = case.plan.opens.first().cloned().unwrap_or_else(|| Knobs::gen(&mut crate::rng::Rng::new(case.run_seed)));
     let n = plan.tasks.len();
@@ -335,6 +348,7 @@ pub fn body(case: &Case, out: &Shared) {
     // shuttle task ids of the locker tasks themselves (ids are handed out in spawn order, and a
     // locker may open the database - spawning a worker - before the next locker is spawned)
     let locker_ids: Arc<Mutex<BTreeSet<usize>>> = Arc::new(Mutex::new(BTreeSet::new()));
+    let main_phase_done = Arc::new(std::sync::atomic::AtomicBool::new(false));
     let mut hs = vec![];
     for (t, ops) in plan.tasks.iter().cloned().enumerate() {
         let ctx = Ctx { fs: fs.clone(), path: path.clone(), knobs: knobs.clone(), owners: owners.clone(), out: Arc::clone(out) };
@@ -342,6 +356,7 @@ pub fn body(case: &Case, out: &Shared) {
         let winners = Arc::clone(&winners);
         let racers = plan.final_racers;
         let locker_ids2 = Arc::clone(&locker_ids);
+        let done = Arc::clone(&main_phase_done);
         let h = rt::thread::Builder::new()
             .name(format!("locker-{}", t))
             .spawn(move || {
@@ -394,6 +409,7 @@ pub fn body(case: &Case, out: &Shared) {
                     ctx.close(t, d);
                 }
                 // ---- final phase: everybody closed; the first `racers` tasks race open ----
+                done.store(true, std::sync::atomic::Ordering::SeqCst);
                 barrier.wait();
                 let mut mine: Option<DB> = None;
                 if t < racers && !rt::is_poisoned() {
@@ -411,8 +427,39 @@ pub fn body(case: &Case, out: &Shared) {
             .expect("spawn locker");
         hs.push(h);
     }
+    // lock prober (main phase only)
+    let prober = if plan.probes > 0 {
+        let (fs2, path2, done2, probes) = (fs.clone(), path.clone(), Arc::clone(&main_phase_done), plan.probes);
+        Some(
+            rt::thread::Builder::new()
+                .name("lock-prober".into())
+                .spawn(move || {
+                    let lock_path = path2.join("LOCK");
+                    for _ in 0..probes {
+                        rt::sched_point(rt::YieldKind::Client);
+                        if done2.load(std::sync::atomic::Ordering::SeqCst) || rt::is_poisoned() {
+                            break;
+                        }
+                        if !path2.exists() {
+                            continue;
+                        }
+                        // try-lock and release at once (no scheduling point in between)
+                        if let Ok(l) = fs2.inner.lock_file(&lock_path) {
+                            fs2.locks.lock().unwrap().push((rt::next_seq(), rt::current_task()));
+                            drop(l);
+                        }
+                    }
+                })
+                .expect("spawn prober"),
+        )
+    } else {
+        None
+    };
     for h in hs {
         let _ = h.join();
+    }
+    if let Some(p) = prober {
+        let _ = p.join();
     }
     let w = *winners.lock().unwrap();
     if !rt::is_poisoned() && plan.final_racers >= 1 && w != 1 {
@@ -424,32 +471,52 @@ pub fn body(case: &Case, out: &Shared) {
     // distinguishing signature suffix so that violations without any destroy/open overlap are
     // never confused with it.
     let raced = g.destroy_calls.iter().any(|d| g.open_calls.iter().any(|o| o.0 < d.1 && d.0 < o.1));
-    // While a task owns the database nobody else's background thread may still be creating,
-    // renaming or removing files in it: a worker thread that existed before the owner's open began
-    // belongs to an earlier instance, which must have finished its background work before it gave
-    // up the lock. (Locker tasks are 1..=n; main is 0; every other id is a worker thread.)
+    // A worker thread belongs to the instance whose DB::open spawned it. Everything it creates,
+    // writes, renames or removes must happen while that instance holds the file lock. If somebody
+    // else (another opener, destroy_database or the harness's lock prober) was GRANTED the lock
+    // after the instance's own grant and the worker still mutates files afterwards, the instance
+    // gave up the lock before its background work had finished.
     if !rt::is_poisoned() {
         let muts = fs.mutations.lock().unwrap();
+        let grants = fs.locks.lock().unwrap();
         let lockers = locker_ids.lock().unwrap().clone();
         let _ = n;
-        if std::env::var_os("RAINSIM_DEBUG_LOCK").is_some() {
-            eprintln!("lockers={:?} intervals={:?} muts={:?}", lockers, g.intervals, &muts[..muts.len().min(60)]);
-        }
-        'outer: for (owner, existing, opened, closed) in g.intervals.iter() {
-            for (seq, task, what) in muts.iter() {
-                let is_worker = *task != 0 && *task != usize::MAX && !lockers.contains(task);
-                // created by a spawn call that happened before this owner's open began
-                let earlier = rt::spawn_ordinal_of(*task).map(|o| o <= *existing).unwrap_or(false);
-                if is_worker && earlier && seq > opened && seq < closed {
-                    push_finding(out, Finding::new(&["C17"], "previous-instance-still-active", what, format!("task {} owned the database from event {} to {}, but worker thread (task {}) of an earlier instance performed {} at event {}: the earlier owner gave up the lock before its background work had finished", owner, opened, closed, task, what, seq), None));
-                    break 'outer;
-                }
+        'outer: for (m, w, what) in muts.iter() {
+            if *w == 0 || *w == usize::MAX || lockers.contains(w) {
+                continue;
+            }
+            let Some((parent, spawn_seq)) = rt::spawn_parent_of(*w) else { continue };
+            if !lockers.contains(&parent) {
+                continue;
+            }
+            // the grant of the open call that spawned this worker
+            let Some((own_grant, _)) = grants.iter().find(|(s, t)| *t == parent && *s > spawn_seq).copied() else { continue };
+            if let Some((other_seq, other)) = grants.iter().find(|(s, t)| *t != parent && *s > own_grant && *s < *m).copied() {
+                push_finding(
+                    out,
+                    Finding::new(
+                        &["C17"],
+                        "previous-instance-still-active",
+                        what,
+                        format!("the worker thread (task {}) of the instance opened by task {} (lock granted at event {}) performed {} at event {}, although task {} had been granted the lock at event {}: the instance gave up the lock before its background work had finished", w, parent, own_grant, what, m, other, other_seq),
+                        None,
+                    ),
+                );
+                break 'outer;
             }
         }
+        if std::env::var_os("RAINSIM_DEBUG_LOCK").is_some() {
+            eprintln!("lockers={:?} grants={:?} muts={:?}", lockers, &grants[..grants.len().min(40)], &muts[..muts.len().min(60)]);
+        }
     }
+    // destroy_database releases its lock and only then unlinks LOCK; an open that overlaps a
+    // destroy call can therefore slip in (see known_findings.json). Findings of such runs get a
+    // distinguishing signature suffix so that violations without any destroy/open overlap are
+    // never confused with it.
+    let raced = g.destroy_calls.iter().any(|d| g.open_calls.iter().any(|o| o.0 < d.1 && d.0 < o.1));
     with_out(out, |o| {
         for f in o.findings.iter_mut() {
-            if f.concerns("C17") {
+            if f.concerns("C17") && !f.signature.contains("destroy-overlap") {
                 f.signature.push_str(if raced { "|destroy-overlapped-open" } else { "|no-destroy-overlap" });
             }
         }
@@ -491,7 +558,7 @@ pub fn gen_plan(rng: &mut crate::rng::Rng, thorough: bool) -> LockPlan {
     if rng.chance(2, 5) {
         // template: one owner closes while its background work is in flight, the others keep
         // trying to open (the window between "close began" and "close finished")
-        let mut tasks = vec![vec![LOp::Open, LOp::Burst(10 + rng.below(50) as u32), LOp::Close, LOp::Hold(1), LOp::Open]];
+        let mut tasks = vec![vec![LOp::Open, LOp::Burst(30 + rng.below(120) as u32), LOp::Close, LOp::Hold(1), LOp::Open]];
         for _ in 1..n {
             let tries = rng.range(2, 6) as usize;
             let mut ops = vec![];
@@ -506,7 +573,7 @@ pub fn gen_plan(rng: &mut crate::rng::Rng, thorough: bool) -> LockPlan {
             }
             tasks.push(ops);
         }
-        return LockPlan { tasks, final_racers: rng.range(1, n as u64) as usize };
+        return LockPlan { tasks, final_racers: rng.range(1, n as u64) as usize, probes: if rng.chance(2, 3) { 20 + rng.below(200) as u32 } else { 0 } };
     }
     let mut tasks = vec![];
     for _ in 0..n {
@@ -523,5 +590,5 @@ pub fn gen_plan(rng: &mut crate::rng::Rng, thorough: bool) -> LockPlan {
         }
         tasks.push(ops);
     }
-    LockPlan { tasks, final_racers: rng.range(1, n as u64) as usize }
+    LockPlan { tasks, final_racers: rng.range(1, n as u64) as usize, probes: if rng.chance(1, 3) { 10 + rng.below(100) as u32 } else { 0 } }
 }
